@@ -118,6 +118,8 @@ class Check:
             results = pool.run(self._guarded, descs, deadline=t0 + cfg["budget"])
         if os.environ.get("VERIF_DIGEST_OUT"):
             self.write_digests(os.environ["VERIF_DIGEST_OUT"], descs, results)
+        if self.hang_is_violation:
+            self.retry_timeouts(descs, results)
         agg = self.aggregate(descs, results)
         agg["gen_s"] = gen_s
         viols = self.triage(agg, confirm=not a.no_confirm)
@@ -218,6 +220,25 @@ class Check:
         with open(fout, "wb") as f:
             pickle.dump(res, f)
         return 0
+
+    # ---- liveness: a case that hit the per-case wall limit is run once more, alone, with a far larger limit; only if it exceeds
+    # that too it counts as "does not terminate" (checks whose property demands termination set hang_is_violation)
+    hang_is_violation = False
+    hang_timeout = float(os.environ.get("VERIF_HANG_TIMEOUT_S", 400))
+
+    def retry_timeouts(self, descs, results, limit=3):
+        n = 0
+        for i, r in enumerate(results):
+            if r is None or r[0] != "timeout" or n >= limit:
+                continue
+            n += 1
+            pool = C.ForkPool(workers=1, timeout=self.hang_timeout)
+            (st, val), = pool.run(self._guarded, [descs[i]])
+            if st == "timeout":
+                results[i] = ("ok", dict(viol=[dict(prop=self.pid, oracle="does_not_terminate", bound_s=self.hang_timeout, sig=dict(oracle="does_not_terminate"))],
+                                         counters=dict(hang_retries=1), key=None, nontrivial=False, evaluations=1, outcome="does_not_terminate"))
+            else:
+                results[i] = (st, val)
 
     def aggregate(self, descs, results):
         agg = dict(ran=0, inconclusive=0, inconclusive_kinds={}, distinct=set(), counters={}, samples=[], viol=[], evaluations=0,
@@ -357,8 +378,11 @@ class Check:
 
     def still_fails(self, desc, sig, timeout=120):
         """Run one case in a fresh fork and report whether a violation with the same signature shows up."""
-        pool = C.ForkPool(workers=1, timeout=timeout)
+        hang = sig.get("oracle") == "does_not_terminate"
+        pool = C.ForkPool(workers=1, timeout=self.hang_timeout if hang else timeout)
         (st, val), = pool.run(self._guarded, [desc])
+        if hang:
+            return st == "timeout"
         if st != "ok":
             return False
         return any(self.own(v) and self.signature(v) == sig for v in val.get("viol") or [])
@@ -367,7 +391,7 @@ class Check:
         """Replay in a fresh interpreter; the violation must reproduce exactly (same signature)."""
         cmd = [sys.executable, os.path.join(VERIF, "vcheck"), self.pid, "--replay", path]
         try:
-            p = subprocess.run(cmd, stdout=subprocess.PIPE, stderr=subprocess.STDOUT, text=True, timeout=600,
+            p = subprocess.run(cmd, stdout=subprocess.PIPE, stderr=subprocess.STDOUT, text=True, timeout=600 + self.hang_timeout,
                                env=dict(os.environ, PYTHONHASHSEED="0"))
         except subprocess.TimeoutExpired:
             return False
@@ -384,8 +408,17 @@ class Check:
                      VERIF_ENV_JSON=json.dumps(env))
             p = subprocess.run(["setarch", "x86_64", "-R", sys.executable, os.path.join(VERIF, "vcheck"), self.reg_name(), "--replay", path], env=e)
             return p.returncode
-        pool = C.ForkPool(workers=1, timeout=600)
+        hang = sig.get("oracle") == "does_not_terminate"
+        pool = C.ForkPool(workers=1, timeout=self.hang_timeout if hang else 600)
         (st, val), = pool.run(self._guarded, [desc])
+        if hang:
+            if st == "timeout":
+                print(f"REPLAY-REPRODUCED property={self.pid} signature={json.dumps(sig, sort_keys=True)}")
+                print(json.dumps(dict(oracle="does_not_terminate", bound_s=self.hang_timeout)))
+                print(f"VIOLATION property={self.pid} replay={path}")
+                return 1
+            print(f"REPLAY-NOT-REPRODUCED property={self.pid}; the case terminated ({st})")
+            return 0
         if st != "ok":
             print(f"REPLAY-HARNESS-ERROR {st}: {str(val)[-800:]}")
             return 2
